@@ -140,7 +140,7 @@ def check_scenarios(prop, tier):
                         why = None
                         if r.get('status') != 'ok' or r.get('status2') != 'ok':
                             why = 'is not accepted by the parser (%s / %s)' % (r.get('status'), r.get('status2'))
-                        elif any(fp['old'] not in (want, None) or fp['new'] not in (want, None) for fp in r['p1']):
+                        elif not r['p1'] or any(want not in (fp['old'], fp['new']) for fp in r['p1']):
                             why = 'does not name the file it belongs to'
                         elif r['w1'] != r['w2'] or p_text.same_c12(r['p1'], r['p2']):
                             why = 'is not a fixed point of write/parse'
